@@ -274,7 +274,15 @@ def gen_case(r, idx, profile):
         mid = g.nmid() if qos in (1, 2) or r.random() < 0.2 else 0
         if r.random() < 0.1:
             mid = r.choice([0, 1, g.bmid])
-        g.sn(publish(tit, tid, mid, payload(), qos, r.random() < 0.15, r.random() < 0.2))
+        pl = payload()
+        g.sn(publish(tit, tid, mid, pl, qos, r.random() < 0.15, r.random() < 0.2))
+        if qos == 1 and rd >= 200 and r.random() < 0.12:
+            # the client retransmits its PUBLISH (DUP, same message ID); the broker's PUBACK arrives
+            # after the first exchange has timed out but while the retransmission's is still alive
+            g.sn(publish(tit, tid, mid, pl, qos, True, False), gap=max(1, rd * 6 // 1000))
+            g.q += rd // 100 - max(1, rd * 6 // 1000)
+            g.mq("puback %d" % mid, gap=0)
+            return
         if qos == 1 and r.random() < 0.8:
             g.mq("puback %d" % ((mid if r.random() < 0.9 else mid + 1) & 0xFFFF))
         if qos == 2 and r.random() < 0.8:
@@ -371,6 +379,10 @@ def gen_case(r, idx, profile):
             if w < 0.75:
                 g.sn(regack(tid, msgid, 0))
                 g.reg[name] = tid
+                if r.random() < 0.15:
+                    # a late duplicate of the REGACK (e.g. for a duplicated REGISTER), even a refusing one,
+                    # must not disturb the exchange that has moved on
+                    g.sn(regack(tid, msgid, r.choice([0, 3])))
             elif w < 0.85:
                 g.sn(regack(tid, msgid, r.choice([1, 2, 3])))
                 return
@@ -388,6 +400,8 @@ def gen_case(r, idx, profile):
             g.sn(pubrec(mid))
             if r.random() < 0.9:
                 g.mq("pubrel %d" % mid)
+                if r.random() < 0.2:
+                    g.sn(pubrec(mid))          # a duplicated PUBREC after the PUBREL
                 if r.random() < 0.9:
                     g.sn(pubcomp(mid))
 
